@@ -2,7 +2,7 @@
    fields named here are read, the harness appends the implementation's results behind them.
      A  id v                      -> id  hex(announce v)
      W  id v msg                  -> id  O:<hex(frame v msg)> | E          (write_msg)
-     F  id v m1,m2,...            -> id  hex(wire v msgs)
+     F  id v m1,m2,...            -> id  hex(bytes written) | E            (write_stream: New + WriteMsg each)
      R  id stream sizes           -> id  <A|I|->|<n>:<m1,...>|<EOF|OTHER>    (read_stream (cut sizes stream))
      T  id v stream sizes         -> id  <n>:<Cdec|Dhex,...>|<EOF|OTHER>     (tr_stream v (cut sizes stream))
    v = A | I.  sizes = comma separated chunk lengths, "KxN" = N chunks of K bytes, "-" = none
@@ -73,7 +73,11 @@ let () =
         | Panic -> "P" in
       Printf.printf "%s\t%s\n" id r
     | "F" :: id :: v :: msgs :: _ ->
-      Printf.printf "%s\t%s\n" id (hex_of_bytes (wire (variant_of v) (msgs_of msgs)))
+      let r = match write_stream (variant_of v) (msgs_of msgs) with
+        | Ok b -> hex_of_bytes b
+        | Err -> "E"
+        | Panic -> "P" in
+      Printf.printf "%s\t%s\n" id r
     | "R" :: id :: stream :: sizes :: _ ->
       let cs = cut (sizes_of sizes) (bytes_of_hex stream) in
       let r = match read_stream cs with
